@@ -26,14 +26,14 @@ CONSTANTS Family,     \* which workflow: one of the built-in families, or "custo
                           \* channel blocks while the run lock is held; FALSE = the repaired engine drops the error
 
 ASSUME Retries >= 1 /\ ~(SplitHandlers /\ BlockingErrors)
-NoCustom == [steps |-> <<>>, refs |-> <<>>, outputs |-> <<>>]
+NoCustom == [steps |-> <<>>, refs |-> <<>>, outputs |-> <<>>, enabled |-> <<>>, stop |-> <<>>]
 Nil == "nil"
 AND == "and"  CAND == "cand"  NONE == "-"
 
 ----------------------------------------------------------------------------
 \* Workflow families (abstract syntax): Steps, references of the starting stage, outputs, outcome model
 RangeOf(f) == {f[x] : x \in DOMAIN f}
-Steps == CASE Family = "custom" -> RangeOf(Custom.steps) [] Family = "single" -> {"a"} [] Family = "chain2" -> {"a", "b"} [] Family = "fan2" -> {"a", "b"}
+Steps == CASE Family = "custom" -> RangeOf(Custom.steps) [] Family \in {"dis2", "stop2"} -> {"a", "b"} [] Family = "single" -> {"a"} [] Family = "chain2" -> {"a", "b"} [] Family = "fan2" -> {"a", "b"}
            [] Family = "fan3" -> {"a", "b", "c"} [] Family = "detector" -> {"a", "b"}
 
 St(s, st) == <<"st", s, st>>
@@ -43,10 +43,17 @@ InNode == <<"in">>
 
 \* what the expressions of a stage's input refer to (input and wait_for feed the starting stage, deploy feeds deploy)
 StageRefs(s, st) == CASE Family = "custom" -> (IF st \in DOMAIN Custom.refs[s] THEN RangeOf(Custom.refs[s][st]) ELSE {})
-                      [] Family = "chain2" /\ s = "b" /\ st = "starting" -> {So("a", "outputs", "success")} [] OTHER -> {}
+                      [] Family = "chain2" /\ s = "b" /\ st = "starting" -> {So("a", "outputs", "success")}
+                      [] Family = "dis2" /\ s = "b" /\ st = "starting" -> {So("a", "disabled", "output")}     \* b runs because a is disabled
+                      [] Family = "stop2" /\ s = "a" /\ st = "cancelled" -> {So("b", "outputs", "success")}   \* a is stopped when b has succeeded
+                      [] OTHER -> {}
+\* the value of a step's enabled expression ("T" when it has none) and whether its stop condition is true when evaluated
+EnabledVal(s) == CASE Family = "custom" -> Custom.enabled[s] [] Family = "dis2" /\ s = "a" -> "F" [] OTHER -> "T"
+StopVal(s) == CASE Family = "custom" -> Custom.stop[s] [] Family = "stop2" /\ s = "a" -> "T" [] OTHER -> "F"
 OutputIds == CASE Family = "custom" -> DOMAIN Custom.outputs [] OTHER -> {"o"}
 OutRefs(id) == CASE Family = "custom" -> RangeOf(Custom.outputs[id])
-                 [] Family = "single" -> {So("a", "outputs", "success")}
+                 [] Family \in {"single", "stop2"} -> {So("a", "outputs", "success")}
+                 [] Family = "dis2" -> {So("b", "outputs", "success")}
                  [] Family = "chain2" -> {So("b", "outputs", "success")}
                  [] Family \in {"fan2", "fan3"} -> {So(s, "outputs", "success") : s \in Steps}
                  [] Family = "detector" -> {So("a", "crashed", "error"), So("b", "outputs", "success")}
@@ -78,7 +85,7 @@ AllNode == {InNode} \cup {St(s, st) : s \in Steps, st \in Stages}
 \* edges <<m, n, t>>: m depends on n
 Edges == UNION {{<<St(s, nx[1]), St(s, a), nx[2]>> : nx \in NextStages(a)} : s \in Steps, a \in Stages}
          \cup UNION {{<<So(s, st, o), St(s, st), AND>> : o \in Declared(st)} : s \in Steps, st \in Stages}
-         \cup UNION {{<<St(s, st), r, AND>> : r \in StageRefs(s, st)} : s \in Steps, st \in {"deploy", "starting"}}
+         \cup UNION {{<<St(s, st), r, AND>> : r \in StageRefs(s, st)} : s \in Steps, st \in {"deploy", "enabling", "starting", "cancelled"}}
          \cup UNION {{<<Out(id), r, AND>> : r \in OutRefs(id)} : id \in OutputIds}
 E == {<<e[1], e[2]>> : e \in Edges}
 TypeOf(m, n) == (CHOOSE e \in Edges : e[1] = m /\ e[2] = n)[3]
@@ -145,6 +152,8 @@ StartFailedScript == <<FromFailed("crashed", "running"), F("$prev"), Set("crashe
                      \o Failures("running") \o <<F("closed")>>
 RunFailedScript == <<Set("crashed", "running"), SC(Nil), Set("crashed", "finished"), CO("error")>>
                    \o Failures("outputs") \o <<F("closed")>>
+DisabledScript == <<Set("disabled", "running"), SC("resolved"), Set("disabled", "finished"), CO("output")>>
+                  \o Failures("starting") \o <<F("closed")>>
 SuccessScript(o) == <<Set("outputs", "running"), SC(Nil), Set("outputs", "finished"), CO(o)>>
 
 NoH == [active |-> FALSE]
@@ -166,11 +175,15 @@ Init ==
 ProvideInto(acc, s, st) ==
   CASE st = "deploy"   -> [acc EXCEPT !.slotD[s] = 1,
                                       !.state[s] = IF acc.state[s] = "waiting_for_input" /\ stage[s] = "deploy" THEN "running" ELSE @]
-    [] st = "enabling" -> [acc EXCEPT !.slotE[s] = "T",
+    [] st = "enabling" -> [acc EXCEPT !.slotE[s] = EnabledVal(s),
                                       !.state[s] = IF acc.state[s] = "waiting_for_input" /\ stage[s] = "enabling" THEN "running" ELSE @]
     [] st = "starting" -> [acc EXCEPT !.slotR[s] = 1,
                                       !.state[s] = IF acc.state[s] = "waiting_for_input" /\ stage[s] = "starting" THEN "running" ELSE @]
-    [] st = "cancelled" -> acc          \* no stop_if in the prototype
+    \* a true stop condition cancels the step (cancelStep): its context ends, and a running plugin is sent the signal
+    [] st = "cancelled" -> IF StopVal(s) = "T"
+                             THEN [acc EXCEPT !.stepCtx[s] = TRUE,
+                                              !.sigQ[s] = IF stage[s] = "running" /\ ~sigNil[s] THEN 1 ELSE @]
+                             ELSE acc
 RECURSIVE NotifyFold(_, _)
 NotifyFold(acc, todo) ==
   IF todo = <<>> THEN acc ELSE
@@ -188,7 +201,8 @@ NotifyFold(acc, todo) ==
                 ELSE NotifyFold([acc EXCEPT !.g = r.g, !.od = TRUE, !.oc = n[2]], Tail(todo))
   ELSE NotifyFold(acc, Tail(todo))
 
-Acc0(gg) == [g |-> [gg EXCEPT !.ready = {}], slotD |-> slotD, slotE |-> slotE, slotR |-> slotR, state |-> state, provs |-> <<>>,
+Acc0(gg) == [g |-> [gg EXCEPT !.ready = {}], slotD |-> slotD, slotE |-> slotE, slotR |-> slotR, state |-> state, stepCtx |-> stepCtx,
+             sigQ |-> sigQ, provs |-> <<>>,
              errs |-> <<>>, wo |-> waitingOutputs, od |-> outputDone, oc |-> Nil, cancel |-> FALSE]
 \* hand every collected input to its step (atomic mode: all at once, canonical order)
 RECURSIVE ProvideAll(_, _)
@@ -204,6 +218,7 @@ ArmIfDead(d, s, st, gg, od) == IF s # Nil /\ DeadWith(st, gg, od) THEN Bump(d, s
 ApplyAtomic(acc0, who, armDetFor) ==
   LET acc == ProvideAll(acc0, acc0.provs) IN
   /\ g' = acc.g /\ slotD' = acc.slotD /\ slotE' = acc.slotE /\ slotR' = acc.slotR /\ state' = acc.state
+  /\ stepCtx' = acc.stepCtx /\ sigQ' = acc.sigQ
   /\ waitingOutputs' = acc.wo /\ outputDone' = acc.od
   /\ outCh' = IF acc.oc # Nil THEN acc.oc ELSE outCh
   /\ hq' = hq
@@ -223,7 +238,7 @@ ApplySplit(acc, who, armDetFor) ==
   /\ hq' = [active |-> TRUE, who |-> who, provs |-> {acc.provs[i] : i \in DOMAIN acc.provs}, errs |-> acc.errs, oc |-> acc.oc,
             cancel |-> acc.cancel, arm |-> armDetFor, checked |-> FALSE, k |-> Retries, seen |-> [x \in Steps |-> "unread"]]
   /\ lockHolder' = who
-  /\ UNCHANGED <<slotD, slotE, slotR, state, outCh, errq, blocked, runCtx, det>>
+  /\ UNCHANGED <<slotD, slotE, slotR, state, stepCtx, sigQ, outCh, errq, blocked, runCtx, det>>
 Apply(acc, who, armDetFor) == IF SplitHandlers THEN ApplySplit(acc, who, armDetFor) ELSE ApplyAtomic(acc, who, armDetFor)
 
 U0(v) == UNCHANGED v
@@ -251,10 +266,11 @@ HRest == <<g, produced, waitingOutputs, outputDone, lockHolder, blocked, parentC
 HStepRest == <<stage, prevStage, pend, cont, stepCtx, closedFlag, conn, exec, execRes, sigNil, sigQ, resQ, wg, execStarted>>
 HProvide(s, st) ==
   /\ hq.active /\ <<s, st>> \in hq.provs
-  /\ LET acc == ProvideInto([slotD |-> slotD, slotE |-> slotE, slotR |-> slotR, state |-> state], s, st) IN
-       slotD' = acc.slotD /\ slotE' = acc.slotE /\ slotR' = acc.slotR /\ state' = acc.state
+  /\ LET acc == ProvideInto([slotD |-> slotD, slotE |-> slotE, slotR |-> slotR, state |-> state, stepCtx |-> stepCtx, sigQ |-> sigQ], s, st) IN
+       slotD' = acc.slotD /\ slotE' = acc.slotE /\ slotR' = acc.slotR /\ state' = acc.state /\ stepCtx' = acc.stepCtx /\ sigQ' = acc.sigQ
   /\ hq' = [hq EXCEPT !.provs = @ \ {<<s, st>>}]
-  /\ UNCHANGED <<outCh, errq, runCtx, det>> /\ UNCHANGED HRest /\ UNCHANGED HStepRest
+  /\ UNCHANGED <<outCh, errq, runCtx, det>> /\ UNCHANGED HRest
+  /\ UNCHANGED <<stage, prevStage, pend, cont, closedFlag, conn, exec, execRes, sigNil, resQ, wg, execStarted>>
 HErr ==
   /\ hq.active /\ hq.errs # <<>>
   /\ errq' = IF Len(errq) < ErrCap THEN Append(errq, Head(hq.errs)) ELSE errq      \* (the repaired engine drops it when full)
@@ -332,6 +348,7 @@ HandlerF(s, st) ==
   ELSE [acc |-> Notify(r.g), prod |-> produced, panic |-> FALSE]
 
 StepVarsNoPend == <<cont, stepCtx, closedFlag, conn, exec, execRes, sigNil, sigQ, resQ, wg, execStarted>>
+StepVarsHandler == <<cont, closedFlag, conn, exec, execRes, sigNil, resQ, wg, execStarted>>     \* (a handler may stop steps: Apply sets stepCtx, sigQ)
 StepMicro(s) ==
   /\ pend[s] # <<>>
   /\ LET m == Head(pend[s]) IN
@@ -339,37 +356,36 @@ StepMicro(s) ==
      /\ CASE m.op = "Set" ->
                /\ prevStage' = [prevStage EXCEPT ![s] = stage[s]] /\ stage' = [stage EXCEPT ![s] = m.stage]
                /\ state' = [state EXCEPT ![s] = m.state]
-               /\ UNCHANGED <<rl, slotD, slotE, slotR>>
+               /\ UNCHANGED <<rl, slotD, slotE, slotR>> /\ UNCHANGED StepVarsNoPend
           [] m.op = "SetFF" ->
                /\ prevStage' = [prevStage EXCEPT ![s] = stage[s]] /\ stage' = [stage EXCEPT ![s] = m.stage]
                /\ state' = [state EXCEPT ![s] = m.state]
-               /\ UNCHANGED <<rl, slotD, slotE, slotR>>
+               /\ UNCHANGED <<rl, slotD, slotE, slotR>> /\ UNCHANGED StepVarsNoPend
           [] m.op = "SetA" ->     \* stage entry whose state is decided under the step lock from the input-available flag
                /\ prevStage' = [prevStage EXCEPT ![s] = stage[s]] /\ stage' = [stage EXCEPT ![s] = m.stage]
                /\ state' = [state EXCEPT ![s] = IF slotE[s] # "empty" THEN "running" ELSE "waiting_for_input"]
-               /\ UNCHANGED <<rl, slotD, slotE, slotR>>
+               /\ UNCHANGED <<rl, slotD, slotE, slotR>> /\ UNCHANGED StepVarsNoPend
           [] m.op = "SetW" ->     \* deploy stage, after the non-blocking receive found nothing
                /\ state' = [state EXCEPT ![s] = IF DeployWaitChecked /\ slotD[s] = 1 THEN "running" ELSE "waiting_for_input"]
-               /\ UNCHANGED <<rl, prevStage, stage, slotD, slotE, slotR>>
+               /\ UNCHANGED <<rl, prevStage, stage, slotD, slotE, slotR>> /\ UNCHANGED StepVarsNoPend
           [] m.op = "SetSt" ->
-               /\ state' = [state EXCEPT ![s] = m.state] /\ UNCHANGED <<rl, prevStage, stage, slotD, slotE, slotR>>
+               /\ state' = [state EXCEPT ![s] = m.state] /\ UNCHANGED <<rl, prevStage, stage, slotD, slotE, slotR>> /\ UNCHANGED StepVarsNoPend
           [] m.op = "SC0" ->
-               /\ lockHolder = <<"free">> /\ UNCHANGED <<rl, prevStage, stage, state, slotD, slotE, slotR>>
+               /\ lockHolder = <<"free">> /\ UNCHANGED <<rl, prevStage, stage, state, slotD, slotE, slotR>> /\ UNCHANGED StepVarsNoPend
           [] m.op \in {"SC", "CO"} ->
                /\ lockHolder = <<"free">>
                /\ LET prev == IF m.op = "CO" THEN stage[s] ELSE prevStage[s]
                       h == HandlerSCCO(s, prev, m.out, m.op = "CO") IN
                   /\ produced' = h.prod /\ panicked' = (panicked \/ h.panic)
                   /\ Apply(h.acc, <<"step", s>>, s)
-               /\ UNCHANGED <<parentCancelled, mainPc, result, termTodo, termCur, fired, prevStage, stage>>
+               /\ UNCHANGED <<parentCancelled, mainPc, result, termTodo, termCur, fired, prevStage, stage>> /\ UNCHANGED StepVarsHandler
           [] m.op = "F" ->
                /\ lockHolder = <<"free">>
                /\ LET st == IF m.stage = "$prev" THEN prevStage[s] ELSE m.stage
                       h == HandlerF(s, st) IN
                   /\ produced' = h.prod /\ panicked' = (panicked \/ h.panic)
                   /\ Apply(h.acc, <<"step", s>>, Nil)
-               /\ UNCHANGED <<parentCancelled, mainPc, result, termTodo, termCur, fired, prevStage, stage>>
-  /\ UNCHANGED StepVarsNoPend
+               /\ UNCHANGED <<parentCancelled, mainPc, result, termTodo, termCur, fired, prevStage, stage>> /\ UNCHANGED StepVarsHandler
 
 Go(s, p, c) == pend' = [pend EXCEPT ![s] = p] /\ cont' = [cont EXCEPT ![s] = c]
 Idle(s) == pend[s] = <<>>
@@ -391,6 +407,7 @@ PostDeploy(s) == /\ Idle(s) /\ cont[s] = "postDeploy"
                  /\ UNCHANGED <<rl, stage, state, prevStage, slotD, slotE, slotR, stepCtx, closedFlag, exec, execRes, sigNil, sigQ, resQ, wg, execStarted>>
 AwaitE(s) == /\ Idle(s) /\ cont[s] = "awaitE"
              /\ \/ slotE[s] = "T" /\ slotE' = [slotE EXCEPT ![s] = "empty"] /\ Go(s, <<F("disabled")>>, "tryR")
+                \/ slotE[s] = "F" /\ slotE' = [slotE EXCEPT ![s] = "empty"] /\ Go(s, DisabledScript, "exit")
                 \/ stepCtx[s] /\ U0(slotE) /\ Go(s, ClosedEarly("starting", TRUE), "exit")
              /\ UNCHANGED <<rl, stage, state, prevStage, slotD, slotR, stepCtx, closedFlag, conn, exec, execRes, sigNil, sigQ, resQ, wg, execStarted>>
 TryR(s) == /\ Idle(s) /\ cont[s] = "tryR"
@@ -470,7 +487,7 @@ MainKickoff ==
   /\ LET r == Resolve(PushStarting(g), InNode, "R") IN Apply(Notify(r.g), <<"main">>, Nil)
   /\ mainPc' = "select"
   /\ UNCHANGED <<produced, parentCancelled, result, termTodo, termCur, panicked, fired>>
-  /\ UNCHANGED <<stage, prevStage, pend, cont, stepCtx, closedFlag, conn, exec, execRes, sigNil, sigQ, resQ, wg, execStarted>>
+  /\ UNCHANGED <<stage, prevStage, pend, cont, closedFlag, conn, exec, execRes, sigNil, resQ, wg, execStarted>>
 Drain == errq' = <<>>
 MainSelectOutput ==
   /\ mainPc = "select" /\ outCh \notin {"empty", "taken"}
